@@ -43,7 +43,9 @@ type HistCfg struct {
 	AnswerOrder   string         `json:"answer_order"` // random | oldest | newest
 	CIDTags       bool           `json:"cid_tags"`     // use {cid} tagged resource ids
 	Metrics       bool           `json:"metrics"`
-	Trace         bool           `json:"-"`
+	// HTTPHeaderAuth, when set, is the header authentication method (resource.method) of HTTP requests.
+	HTTPHeaderAuth string `json:"http_header_auth,omitempty"`
+	Trace          bool   `json:"-"`
 }
 
 // HistResult is what one history produced.
@@ -732,6 +734,10 @@ func newHistRun(cfg HistCfg) (*histRun, *HistResult) {
 			c.ResetThrottle = cfg.ResetThrottle
 			if cfg.Metrics {
 				c.MetricsPort = 9191
+			}
+			if cfg.HTTPHeaderAuth != "" {
+				ha := cfg.HTTPHeaderAuth
+				c.HeaderAuth = &ha
 			}
 		},
 	})
